@@ -1555,7 +1555,7 @@ def lower_getitem_at_partitioned(context, builder, sig, args):
         builder.not_(
             builder.and_(
                 builder.icmp_signed("<=", localstart, atval),
-                builder.icmp_signed(">", atval, localstop),
+                builder.icmp_signed("<", atval, localstop),
             )
         ),
         likely=False,
